@@ -24,6 +24,26 @@ type Duo struct {
 	// Blocked holds directed (srcIP,dstIP) pairs that cannot communicate.
 	Blocked map[[2]netip.Addr]bool
 	Start   time.Time
+	// Wire is every datagram that entered the network, in send order per socket (append order overall).
+	Wire []*WireEv
+	// Delivered maps datagram id -> true once it was handed to a socket.
+	Delivered map[uint64]bool
+}
+
+// WireEv is one datagram seen on the wire.
+type WireEv struct {
+	At  time.Duration
+	D   *simnet.Datagram
+	msg *Msg
+}
+
+// Msg decodes the datagram lazily.
+func (w *WireEv) Msg() Msg {
+	if w.msg == nil {
+		m := Decode(w.D.Payload)
+		w.msg = &m
+	}
+	return *w.msg
 }
 
 // DuoCfg configures a Duo.
@@ -41,6 +61,11 @@ func NewDuo(c *core.Ctx, cfg DuoCfg) (*Duo, error) {
 	d.W.Reach = func(src, dst netip.AddrPort) bool {
 		return !d.Blocked[[2]netip.Addr{src.Addr(), dst.Addr()}]
 	}
+	d.Delivered = map[uint64]bool{}
+	d.W.OnSend = func(dg *simnet.Datagram) {
+		d.Wire = append(d.Wire, &WireEv{At: time.Since(d.Start), D: dg})
+	}
+	d.W.OnDeliver = func(dg *simnet.Datagram, _ *simnet.Sock) { d.Delivered[dg.ID] = true }
 	d.S = &Stepper{C: c, W: d.W, Describe: d.Tx.Describe,
 		Deltas: []time.Duration{time.Millisecond, 5 * time.Millisecond, 20 * time.Millisecond, 50 * time.Millisecond, 200 * time.Millisecond}}
 	d.HA = d.W.SimpleHost("A", cfg.AddrsA...)
@@ -55,6 +80,7 @@ func NewDuo(c *core.Ctx, cfg DuoCfg) (*Duo, error) {
 		}
 		return NewAgent(name, h, d.Start, append(o, opts...)...)
 	}
+	ice.VerifSeedGlobalRand(1)
 	var err error
 	if d.A, err = mk("A", d.HA, cfg.AliasA, cfg.OptsA); err != nil {
 		return nil, fmt.Errorf("agent A: %w", err)
